@@ -213,6 +213,24 @@ impl Space for ZoneSweep {
                 });
             }
         }
+        // wall-clock readings within a day of the ends of the representable range (zones without a DST
+        // rule, so that the reference needs no rule evaluation that far out): the reading may lie beyond the
+        // instant range while its instant does not
+        if !rz.has_rule {
+            for end in [tmc_ref::r1::MAX_INSTANT_NS, -tmc_ref::r1::MAX_INSTANT_NS] {
+                for back in [0i128, NS, 3_600 * NS, 43_200 * NS] {
+                    let t = end - end.signum() * back;
+                    let l = rz.zone.local_of(t);
+                    let Some(dt) = iso_dt(l) else { continue };
+                    let want: BTreeSet<i128> = rz.zone.candidates(l).into_iter().filter(|c| c.abs() <= tmc_ref::r1::MAX_INSTANT_NS).collect();
+                    let got = call(|| provider.get_named_tz_epoch_nanoseconds(name, dt).map(|v| v.into_iter().map(|e| e.as_i128()).collect::<BTreeSet<i128>>()));
+                    n_loc += 1;
+                    out.lockstep("get_named_tz_epoch_nanoseconds", &Ok(want.clone()), &got, |a, b| a == b, || {
+                        vec![("zone", name.clone()), ("local", format!("{:?}", split_local(l))), ("position", "range_end".to_string()), ("region", region(&rz, (t / NS) as i64).to_string()), ("first_table_transition", "false".to_string()), ("offsets_sum_sign", "-".to_string()), ("reading_beyond_instant_range", (l.abs() > tmc_ref::r1::MAX_INSTANT_NS).to_string())]
+                    });
+                }
+            }
+        }
         out.count("local_queries", n_loc);
         if out.want_sample() {
             out.sample(json!({"zone": name, "table_transitions": rz.file.trans.len(), "footer": rz.file.footer, "model_transitions_with_rule_years": rz.zone.trans.len()}));
